@@ -19,12 +19,17 @@
      (io/reader/container.rs slices() hands out src[landmarks[i] .. landmarks[i+1] or src.len()]
       and fails with InvalidData when that range is not a range of the body -- before any
       subtraction could overflow)                                              -> [index_m]
-   * noodles-cram/src/io/reader/query.rs  read_next_container: an index entry of the queried
-     reference makes the reader seek to the entry's CONTAINER offset and decode ALL slices of
-     that container (the landmark of the entry is not used)                    -> [query_m]
-   * noodles-cram/src/io/reader.rs  query_unmapped: seek to the container offset of the first
-     index entry without reference id (or to the end of the file), then read every record up
-     to the end and keep those whose UNMAPPED flag is set                      -> [query_unmapped] *)
+   * noodles-cram/src/io/reader/query.rs  read_next_container (after the repair 944089d): an
+     index entry of the queried reference makes the reader seek to the entry's CONTAINER offset
+     and decode the slice(s) whose stored landmark is the entry's landmark; a landmark that is
+     not stored in the container header is InvalidData                         -> [query_m]
+     (before the repair ALL slices of the container were decoded for every entry: [query_m_v0])
+   * noodles-cram/src/io/reader.rs  query_unmapped (after the repairs 47f309c, 5cbbdb3): seek to
+     the container offset of the first index entry without reference id, then read every
+     record up to the end and keep those without reference id whose UNMAPPED flag is set; no
+     such entry = the empty answer                                             -> [query_unmapped]
+     (before: SeekFrom::End(0) and an UnexpectedEof, and a filter on the flag alone:
+     [query_unmapped_v0]) *)
 From Coq Require Import List NArith Bool.
 From NV Require Import CramIdx.Crai.
 Import ListNotations.
@@ -72,21 +77,64 @@ Fixpoint index_m (pos : N) (f : list mcont) : result (list entry) :=
       end
   end.
 
-(* what the reader sees after seeking to a container: all its records *)
-Definition flat_c (c : mcont) : container :=
-  mkcont (m_off c) (m_hlen c) (m_len c) 0 0 Multi (m_recs c).
+(* seek(offset) + read_container *)
+Fixpoint find_m (off : N) (f : list mcont) : option mcont :=
+  match f with
+  | [] => None
+  | c :: t => if m_off c =? off then Some c else find_m off t
+  end.
 
-(* Query over a file with multi-slice containers: [query_gen] (Crai.v) only looks at the offset
-   and at the records of the container it lands on *)
-Definition query_m (sel : N -> N -> N -> rec -> bool) (es : list entry) (f : list mcont)
-           (r lo hi : N) : list rec :=
-  query_gen sel es (map flat_c f) r lo hi.
+(* container.slices().zip(landmarks).filter(landmark == index_record.landmark()) *)
+Definition slices_at (lm : N) (c : mcont) : list slice :=
+  filter (fun s => s_landmark s =? lm) (m_slices c).
+
+(* Query::read_record_buf / read_next_container.  The records come one by one; an error ends
+   the iteration and is what a caller collecting the answer sees (records delivered before it
+   are not part of the observation).  A seek that does not land on a container ends the
+   iteration (read_container -> 0). *)
+Fixpoint query_m (sel : N -> N -> N -> rec -> bool) (es : list entry) (f : list mcont)
+         (r lo hi : N) : result (list rec) :=
+  match es with
+  | [] => Ok []
+  | e :: t =>
+      if opt_eqb (e_rid e) r then
+        match find_m (e_off e) f with
+        | None => Ok []
+        | Some c =>
+            match slices_at (e_landmark e) c with
+            | [] => ErrInvalidData
+            | ss =>
+                match query_m sel t f r lo hi with
+                | Ok l => Ok (filter (sel r lo hi) (flat_map s_recs ss) ++ l)
+                | err => err
+                end
+            end
+        end
+      else query_m sel t f r lo hi
+  end.
 
 Definition query_region_m (nrefs : N) (es : list entry) (f : list mcont)
            (r : N) (lo hi : option N) : result (list rec) :=
   if r <? nrefs then
-    let b := region_bounds lo hi in Ok (query_m selected es f r (fst b) (snd b))
+    let b := region_bounds lo hi in query_m selected es f r (fst b) (snd b)
   else ErrInvalidInput.
+
+(* an index whose k-th entry carries a landmark that is not a slice (for the check of the
+   InvalidData path) *)
+Fixpoint bump_landmark (k : nat) (es : list entry) : list entry :=
+  match es, k with
+  | [], _ => []
+  | e :: t, O => mkentry (e_rid e) (e_start e) (e_span e) (e_off e) (e_landmark e + 1) (e_slen e) :: t
+  | e :: t, S k' => e :: bump_landmark k' t
+  end.
+
+(* -- before the repair 944089d: the whole container for every entry -- *)
+Definition flat_c (c : mcont) : container :=
+  mkcont (m_off c) (m_hlen c) (m_len c) 0 0 Multi (m_recs c).
+
+Definition query_m_v0 (sel : N -> N -> N -> rec -> bool) (es : list entry) (f : list mcont)
+           (r lo hi : N) : list rec :=
+  query_gen sel es (map flat_c f) r lo hi.
 
 (* ---- query_unmapped ------------------------------------------------------------------- *)
 
@@ -102,10 +150,18 @@ Fixpoint from_off (off : N) (f : list mcont) : list mcont :=
   | c :: t => if m_off c =? off then f else from_off off t
   end.
 
-(* Without an entry the reader seeks to SeekFrom::End(0) -- PAST the EOF container -- and the
-   first read_container fails with UnexpectedEof (finding
-   cram-query-unmapped-no-unplaced-records-errors). *)
+Definition unplaced_flagged (x : rec) : bool := is_unmapped x && runm x.
+
 Definition query_unmapped (es : list entry) (f : list mcont) : result (list rec) :=
+  match find entry_unmapped es with
+  | Some e => Ok (filter unplaced_flagged (flat_map m_recs (from_off (e_off e) f)))
+  | None => Ok []
+  end.
+
+(* -- before the repairs 47f309c / 5cbbdb3: without an entry the reader seeked to
+   SeekFrom::End(0), PAST the EOF container, and the first read_container failed with
+   UnexpectedEof; the filter looked at the flag only -- *)
+Definition query_unmapped_v0 (es : list entry) (f : list mcont) : result (list rec) :=
   match find entry_unmapped es with
   | Some e => Ok (filter runm (flat_map m_recs (from_off (e_off e) f)))
   | None => ErrUnexpectedEof
@@ -153,7 +209,7 @@ Fixpoint mlayout_ok (pos : N) (f : list mcont) : Prop :=
   end.
 
 Definition slice_ok (s : slice) : Prop :=
-  s_recs s <> [] /\ s_ctx s = slice_ctx (s_recs s) /\ Forall rec_ok (s_recs s).
+  s_recs s <> [] /\ s_ctx s = slice_ctx (s_recs s) /\ Forall rec_ok (s_recs s) /\ 0 < s_len s.
 
 Definition mfile_ok (pos : N) (f : list mcont) : Prop :=
   mlayout_ok pos f /\ Forall (fun c => Forall slice_ok (m_slices c)) f.
@@ -166,7 +222,7 @@ Definition holders (r : N) (c : mcont) : list slice :=
 Definition of_container (c : container) : mcont :=
   mkmcont (c_off c) (c_hlen c) (c_len c) [mkslice (c_landmark c) (c_slen c) (c_ctx c) (c_recs c)].
 
-(* query_unmapped input class: from the first container that holds an unplaced record on, a
+(* query_unmapped_v0 input class: from the first container that holds an unplaced record on, a
    record carries the UNMAPPED flag iff it is unplaced *)
 Fixpoint tail_clean (f : list mcont) : Prop :=
   match f with
